@@ -485,7 +485,7 @@ pub fn run(cx: &mut Ctx) {
     }
 
     // kx with every special / low-order / random peer key: decision must equal libsodium's
-    for (pn, peer) in specials.iter().cloned().chain((0..cx.tier.pick(4, 200, 5000)).map(|j| (format!("random{}", j), [0u8; 32]))) {
+    for (pn, peer) in specials.iter().cloned().chain((0..cx.tier.pick(4, 200, 5000)).map(|j| (format!("random{}", j), [0u8; 32]))).chain((0..cx.tier.pick(1, 8, 64)).map(|j| (format!("reflected_own_key{}", j), [0u8; 32]))) {
         idx += 1;
         if !cx.mine(idx) {
             continue;
@@ -493,7 +493,9 @@ pub fn run(cx: &mut Ctx) {
         let mut rng = cx.rng.fork(idx);
         let peer = if pn.starts_with("random") { rng.arr::<32>() } else { peer };
         let (mypk, mysk) = na::kx_seed_keypair(&rng.arr());
-        let coarse = if pn.starts_with("loworder") { "loworder_peer" } else if pn.starts_with("random") { "random_peer" } else { "edge_peer" };
+        // the peer presents our own public key (loop-back, two instances provisioned from one seed): an ordinary exchange
+        let peer = if pn.starts_with("reflected") { mypk } else { peer };
+        let coarse = if pn.starts_with("loworder") { "loworder_peer" } else if pn.starts_with("random") { "random_peer" } else if pn.starts_with("reflected") { "peer_key_equals_own_key" } else { "edge_peer" };
         cx.key(&format!("kx peer {}", pn));
         for role in ["client", "server"] {
             let case = || json!({"op":"kx","role":role,"peer":hx(&peer),"peer_class":pn,"pk":hx(&mypk),"sk":hx(&mysk)});
